@@ -7,7 +7,8 @@ as IR through the bridge (E1), LAPACK is a contract stub.  After each history, f
     D(q) of the history object  ==  D(q) of a freshly constructed object given the final force constants, masses and NAC
 at a non-Gamma q-list (linear real arithmetic in the symbols).
 Operations: F(A)/F(B) force_constants=, S symmetrize_force_constants(), C set_force_constants_zero_with_radius(r),
-Nw/Ng/N0 nac_params= (Wang / Gonze-Lee / None), M masses=, Q run_qpoints (a query that may populate caches).
+Nw/Ng/N0 nac_params= (Wang / Gonze-Lee / None), M masses=, Q run_qpoints (a query that may populate caches),
+P generate_displacements + forces= (symbolic) + produce_force_constants (dataset replaced; the caller's force array must stay untouched).
 """
 import itertools
 from fractions import Fraction
@@ -23,7 +24,7 @@ from engine.harness import assert_equal, box
 
 PID = "C15"
 QS = [[0.1, 0.2, 0.3], [0.5, 0.0, 0.0]]
-OPS = ["FB", "S", "C", "Nw", "Ng", "N0", "M", "Q"]
+OPS = ["FB", "S", "C", "Nw", "Ng", "N0", "M", "Q", "P"]
 GID, SID = "tric2", "211"
 RADIUS = 3.0
 
@@ -35,7 +36,8 @@ def histories(tier):
             hs.append(h)
     # length-3 histories that interleave a query between NAC/state changes (cache staleness needs query-change-query)
     extra = [("Ng", "Q", "C"), ("Ng", "Q", "S"), ("Ng", "Q", "FB"), ("Ng", "Q", "M"), ("Nw", "Q", "C"), ("Ng", "Q", "Nw"), ("Nw", "Q", "Ng"), ("Q", "Ng", "C"),
-             ("Ng", "C", "Q"), ("S", "Q", "C"), ("Ng", "Q", "N0")]
+             ("Ng", "C", "Q"), ("S", "Q", "C"), ("Ng", "Q", "N0"),
+             ("Ng", "Q", "P"), ("P", "Q", "C"), ("Q", "P", "Ng"), ("P", "Q", "FB")]
     hs += extra
     if tier == "thorough":
         for h in itertools.product(OPS, repeat=3):
@@ -93,6 +95,16 @@ def run_history(h, syms):
             cur_m = np.array([20.0, 40.0]); ph.masses = cur_m
         elif op == "Q":
             query(ph)
+        elif op == "P":
+            # replace the dataset and produce force constants from (symbolic) forces
+            ph.generate_displacements(distance=0.03)
+            nd = len(ph.displacements)
+            forces = symnp.wrap_reals(syms["f"][:nd * n * 3], (nd, n, 3))
+            keep = [x for x in forces.ravel()]
+            ph.forces = forces
+            ph.produce_force_constants(show_drift=False)
+            if any(a is not b for a, b in zip(keep, forces.ravel())):
+                raise HarnessError("forces handed in by the caller were modified by produce_force_constants")
     D = query(ph)
     return D, ph.force_constants, cur_m, cur_nac
 
@@ -115,8 +127,8 @@ def hist_unit(u, res):
     k = 6 if tier == "quick" else 8
     mine = hs[u[1]:u[1] + k]
     n = geometries.natom_super(GID, SID)
-    syms = {"A": harness.reals("a", n * n * 9), "B": harness.reals("b", n * n * 9)}
-    Abox = box(syms["A"]) + box(syms["B"])
+    syms = {"A": harness.reals("a", n * n * 9), "B": harness.reals("b", n * n * 9), "f": harness.reals("f", 24 * n * 3)}
+    Abox = box(syms["A"]) + box(syms["B"]) + box(syms["f"])
     br = bridge.Bridge(ctx.shim, ctx.ir)
     br.install()
     old_linalg = symnp.NPProxy.linalg
@@ -131,7 +143,7 @@ def hist_unit(u, res):
                 key = "%s:hist:%s" % (PID, "-".join(h))
                 if v == "sat":
                     a = harness.model_floats(mdl, syms["A"]); b = harness.model_floats(mdl, syms["B"])
-                    ok, what = replay(h, a, b)
+                    ok, what = replay(h, a, b, harness.model_floats(mdl, syms["f"]))
                     (res.violations if ok else res.unconfirmed).append({"key": key, "what": what, "replay": {"history": list(h)}})
                 elif v == "unknown":
                     res.notes.append("inconclusive " + key)
@@ -149,7 +161,7 @@ def hist_unit(u, res):
     return res
 
 
-def replay(h, a, b):
+def replay(h, a, b, fv=None):
     """the same history with ordinary arrays on the compiled code"""
     n = geometries.natom_super(GID, SID)
     A = np.array(a).reshape(n, n, 3, 3); B = np.array(b).reshape(n, n, 3, 3)
@@ -171,6 +183,11 @@ def replay(h, a, b):
             cur_m = np.array([20.0, 40.0]); ph.masses = cur_m
         elif op == "Q":
             query(ph)
+        elif op == "P":
+            ph.generate_displacements(distance=0.03)
+            nd = len(ph.displacements)
+            ph.forces = np.array(fv[:nd * n * 3], dtype=float).reshape(nd, n, 3)
+            ph.produce_force_constants(show_drift=False)
     D = np.array(query(ph))
     f = geometries.phonopy_obj(GID, SID)
     if cur_m is not None:
@@ -219,9 +236,9 @@ def main(tier, seed):
     chk = Check(PID, tier, seed)
     harness.setup()
     us = units(tier)
-    chk.bounds = ["crystal %s/%s (4 supercell atoms, 2 primitive atoms); two symbolic force-constant arrays (288 reals); all histories of length <= 2 over %s plus %d length-3 query-interleaved histories (thorough: all of length 3)" % (GID, SID, OPS, 11),
+    chk.bounds = ["crystal %s/%s (4 supercell atoms, 2 primitive atoms); two symbolic force-constant arrays (288 reals); all histories of length <= 2 over %s plus %d length-3 query-interleaved histories (thorough: all of length 3)" % (GID, SID, OPS, 15),
                   "final query at q = %s; cutoff radius %.1f A; masses (20, 40); one Wang and one Gonze-Lee parameter set" % (QS, RADIUS)]
-    chk.outside = ["longer histories; produce_force_constants / dataset replacement inside histories; copy()", "that symmetrize_force_constants() leaves the caller's array untouched is deliberately NOT asserted (zero-copy adoption of C-contiguous double arrays is documented)",
+    chk.outside = ["longer histories; copy() (documented to drop force constants and NAC parameters)", "that symmetrize_force_constants() leaves the caller's array untouched is deliberately NOT asserted (zero-copy adoption of C-contiguous double arrays is documented)",
                    "Gonze-Lee short-range cache with symbolic Born charges"]
     chk.assumptions = ["doubles as exact reals; LAPACK replaced by a contract stub (the dynamical matrices are compared, not the spectra)"]
     chk.run_units(run_unit, us)
